@@ -280,7 +280,17 @@ func suseSupported(ctx context.Context, b []byte) bool {
 	for _, l := range strings.Split(string(b), "\n") {
 		k, v, ok := strings.Cut(strings.TrimSpace(l), "=")
 		if ok {
-			files[strings.TrimSpace(k)] = strings.Trim(strings.TrimSpace(v), `"'`)
+			// as osrelease.Parse reads a value: quotes are stripped only when
+			// the value STARTS with one (a lone trailing quote stays, and such
+			// a CPE name is outside the plain shape)
+			v = strings.TrimSpace(v)
+			switch {
+			case strings.HasPrefix(v, `"`):
+				v = strings.Trim(v, `"`)
+			case strings.HasPrefix(v, `'`):
+				v = strings.Trim(v, `'`)
+			}
+			files[strings.TrimSpace(k)] = v
 		}
 	}
 	c, ok := files["CPE_NAME"]
